@@ -50,6 +50,10 @@ Definition read_expect (t0 : store) (r : rstate) (a : addr) (k : key) : expect :
   | None => XRead a k 0 0
   end.
 
+(** a body made of bank sends and touches only: the views agree throughout and at its return *)
+Definition sendonly (body : list prog) : bool :=
+  forallb (fun q => match q with OBankSend _ _ _ | OTouch _ => true | _ => false end) body.
+
 Fixpoint vflags (mx : Z) (t0 : store) (p : prog) (r : rstate) {struct p} : list expect :=
   match p with
   | PFrame body _ =>
@@ -59,12 +63,32 @@ Fixpoint vflags (mx : Z) (t0 : store) (p : prog) (r : rstate) {struct p} : list 
          | q :: t =>
              match q with
              | OTouch a => XTouch (zone && negb (rs (r_get r a))) :: go t r zone
-             | PPrecompile _ fails =>
+             | OBankSend _ _ _ => go t (rrun mx q r) zone
+             | PPrecompile body fails =>
+                 vflags mx t0 q r ++
                  go t (rrun mx q r) (negb fails && negb (mx <? r_calls r + 1) &&
-                                     negb (r_pending (r_with_calls r (r_calls r + 1))))
+                                     negb (r_pending (r_with_calls r (r_calls r + 1))) && sendonly body)
              | _ => vflags mx t0 q r ++ go t (rrun mx q r) false
              end
          end) body r false
+  | PPrecompile body _ =>
+      let r0 := r_with_calls r (r_calls r + 1) in
+      if (mx <? r_calls r0) || r_pending r0 then []
+      else
+      (fix go (l : list prog) (r : rstate) (zone : bool) : list expect :=
+         match l with
+         | [] => []
+         | q :: t =>
+             match q with
+             | OTouch a => XTouch (zone && negb (rs (r_get r a))) :: go t r zone
+             | OBankSend _ _ _ => go t (rrun mx q r) zone
+             | PPrecompile body fails =>
+                 vflags mx t0 q r ++
+                 go t (rrun mx q r) (negb fails && negb (mx <? r_calls r + 1) &&
+                                     negb (r_pending (r_with_calls r (r_calls r + 1))) && sendonly body)
+             | _ => vflags mx t0 q r ++ go t (rrun mx q r) false
+             end
+         end) body (r_flush r0) true
   | OTouch _ => [XTouch false]
   | OReadState a k => [read_expect t0 r a k]
   | _ => []
